@@ -855,6 +855,8 @@ struct SetupRecvRequest{
                   MPI_Comm comm) const
   {
     buffer.reset();
+    // Indices of zero size are never sent: do not wait for them.
+    tracker.skipZeroIndices();
     if(tracker.indicesLeft())
       MPI_Irecv(buffer, buffer.size(), MPITraits<typename DataHandle::DataType>::getType(),
                 tracker.rank(), 933399, comm, &request);
